@@ -1268,7 +1268,7 @@ namespace xtl
     template <class CT, std::size_t N, int ST, template <std::size_t> class EP, class TR>
     inline auto xbasic_fixed_string<CT, N, ST, EP, TR>::insert(const_iterator pos, size_type count, value_type ch) -> iterator
     {
-        if (cbegin() <= pos && pos < cend())
+        if (cbegin() <= pos && pos <= cend())
         {
             size_type index = static_cast<size_type>(pos - cbegin());
             insert(index, count, ch);
@@ -1287,7 +1287,7 @@ namespace xtl
     template <class InputIt>
     auto xbasic_fixed_string<CT, N, ST, EP, TR>::insert(const_iterator pos, InputIt first, InputIt last) -> iterator
     {
-        if (cbegin() <= pos && pos < cend())
+        if (cbegin() <= pos && pos <= cend())
         {
             size_type index = static_cast<size_type>(pos - cbegin());
             size_type count = static_cast<size_type>(std::distance(first, last));
@@ -1586,7 +1586,7 @@ namespace xtl
     inline auto xbasic_fixed_string<CT, N, ST, EP, TR>::replace(const_iterator first, const_iterator last,
                                                             const_pointer cstr, size_type count2) -> self_type&
     {
-        if (cbegin() <= first && first < last && last <= cend())
+        if (cbegin() <= first && first <= last && last <= cend())
         {
             size_type pos = static_cast<size_type>(first - cbegin());
             size_type count = static_cast<size_type>(last - first);
@@ -1639,7 +1639,7 @@ namespace xtl
     inline auto xbasic_fixed_string<CT, N, ST, EP, TR>::replace(const_iterator first, const_iterator last,
                                                             size_type count2, value_type ch) -> self_type&
     {
-        if (cbegin() <= first && first < last && last <= cend())
+        if (cbegin() <= first && first <= last && last <= cend())
         {
             size_type pos = static_cast<size_type>(first - cbegin());
             size_type count = static_cast<size_type>(last - first);
@@ -1660,7 +1660,7 @@ namespace xtl
     inline auto xbasic_fixed_string<CT, N, ST, EP, TR>::replace(const_iterator first, const_iterator last,
                                                             InputIt first2, InputIt last2) -> self_type&
     {
-        if (cbegin() <= first && first < last && last <= cend())
+        if (cbegin() <= first && first <= last && last <= cend())
         {
             size_type pos = static_cast<size_type>(first - cbegin());
             size_type erase_count = static_cast<size_type>(last - first);
